@@ -1,5 +1,5 @@
 SPECIFICATION Spec
-CONSTANTS Alphabet = {10, 13, 58, 32, 100, 120}
+CONSTANTS Alphabet = {10, 13, 58, 32, 120}
           MaxMsgs = 2
           MaxLen1 = 4
           MaxLen2 = 4
